@@ -225,7 +225,8 @@ def handle (case obs : List String) : String × String :=
         | none => "fail:unparsable-observation"
       (model, v)
     | _, _, _ => bad
-  | ["e2e", m, outsS, opsS] =>
+  | [kind, m, outsS, opsS] =>
+    if kind ≠ "e2e" ∧ kind ≠ "e2n" then bad else
     match mode? m, parseAll (fun s => (s.toList.head?).bind outcome?) ((chars outsS).map (String.singleton ·)),
           parseAll (fun s => (s.toList.head?).bind op?) ((chars opsS).map (String.singleton ·)) with
     | some isLazy, some outs, some ops =>
